@@ -2,10 +2,16 @@
 
 package c20
 
-import "pgregory.net/rapid"
+import (
+	"pgregory.net/rapid"
+	"verif/busmodel"
+)
 
 func Gen(t *rapid.T) *Case {
 	c := &Case{Store: rapid.IntRange(0, 3).Draw(t, "store") != 0, Nested: rapid.IntRange(0, 3).Draw(t, "nested") == 0}
+	if rapid.Bool().Draw(t, "hasAmbient") {
+		c.Ambient = rapid.IntRange(0, busmodel.AmbAll).Draw(t, "ambient")
+	}
 	nh := rapid.IntRange(0, 6).Draw(t, "nh")
 	for i := 0; i < nh; i++ {
 		c.Handlers = append(c.Handlers, H{
